@@ -37,6 +37,7 @@ class Ctx:
         self.obligations: list[Obligation] = []
         self.analysed: list[str] = []  # functions / tables / paths looked at
         self.stats: dict = {}
+        self.unrecognised: list[str] = []
 
     def ok(self, key, msg="", loc="", **detail):
         self.obligations.append(Obligation(self.rule, key, "ok", msg, loc, detail))
@@ -49,6 +50,17 @@ class Ctx:
             self.ok(key, "", loc, **detail)
         else:
             self.violation(key, msg, loc, **detail)
+        return cond
+
+    def soft(self, cond, key, msg, loc="", **detail):
+        """A check of the *shape* of the code (a textual / structural pattern).  When the pattern is not
+        found the code may have been restructured without changing behaviour, so this is reported as
+        'not understood' (ANALYSIS-ERROR, exit 2), never as a violation; behavioural changes at the same
+        place are the business of the table-based rules and of RX."""
+        if cond:
+            self.ok(key, "", loc, **detail)
+        else:
+            self.unrecognised.append(f"{key} @ {loc}: expected shape not found - {msg[:200]}")
         return cond
 
     def note(self, what):
@@ -166,6 +178,8 @@ def run_property(prop: str, tier: str, root=None, replay=None, quiet=False, writ
             except Exception as e:
                 tb = traceback.format_exc(limit=6)
                 analysis_errors.append(f"{r.id}: internal error {type(e).__name__}: {e}\n{tb}")
+            for x in ctx.unrecognised:
+                analysis_errors.append(f"{r.id}: {x}")
             obs = ctx.obligations
             if only:
                 obs = [o for o in obs if o.key == only[1]]
